@@ -23,6 +23,9 @@ def sweep(run, repeat=1):
     """returns list of records: dict(lines, with_opts, usage, classes, argv, ref, impl_outs)"""
     us = D.enum_usages(run.tier, run.rng)
     ua = [(ls, wo, D.argvs_for(wo, run.tier)) for ls, wo in us]
+    fam = D.family_usages()
+    ua += fam
+    us = us + [(ls, wo) for ls, wo, _ in fam]
     ref = D.run_reference(ua)
     cases = [(D.script_text(ls, wo), av) for (ls, wo, avs) in ua for av in avs]
     impl = D.run_impl(cases, repeat=repeat)
@@ -67,7 +70,7 @@ def judge_accept(recs):
         o = r["outs"][0]
         if "ok" not in o or r["ref"] is None:
             continue
-        ci, dfl = D.canon_impl(o["ok"], D.OPTS if r["with_opts"] else [], [])
+        ci, dfl = D.canon_impl(o["ok"], D.opts_of(r["with_opts"]), [])
         if D.impl_matches_ref(ci, dfl, r["ref"]["matches"]):
             continue
         for alt in rearrangements(r["ref"]["toks"]):
@@ -104,7 +107,7 @@ def classify(recs):
             continue
         racc = ref is not None and len(ref["matches"]) > 0
         if "ok" in o:
-            ci, dfl = D.canon_impl(o["ok"], D.OPTS if r["with_opts"] else [], [])
+            ci, dfl = D.canon_impl(o["ok"], D.opts_of(r["with_opts"]), [])
             if racc and D.impl_matches_ref(ci, dfl, ref["matches"]):
                 r["verdict"] = "ok"
             elif okre.get(idx):
@@ -124,12 +127,25 @@ def classify(recs):
                 r["known"] += ["K13-" + c for c in r["classes"]]
             else:
                 r["verdict"] = "ok"
+    # a failing pair inside a known class is THAT finding only if the frozen version of the module on which the
+    # findings were recorded (harness/src/pinned_docopt, tools/pin_docopt.sh) fails it in the same way; otherwise it
+    # is a different violation of the same property and is reported
+    kidx = [i for i, r in enumerate(recs) if r["verdict"] in ("C07", "C08") and r["known"]]
+    if kidx:
+        pouts = C.run_harness("docopt", [dict(file=D.script_text(recs[i]["lines"], recs[i]["with_opts"]), args=recs[i]["argv"], pinned=True) for i in kidx],
+                              per_case_timeout=20)
+        for i, po in zip(kidx, pouts):
+            cur = recs[i]["outs"][0]
+            if po.get("crash") or po.get("pinned") != cur:
+                recs[i]["pinned_outcome"] = None if po.get("crash") else po.get("pinned")
+                recs[i]["known"] = []
     return recs
 
 
 def replay_of(r):
     return dict(usage=r["usage"], script=D.script_text(r["lines"], r["with_opts"]), argv=r["argv"],
-                implementation=r["outs"], reference=(r["ref"] or {}).get("matches"), classes=r["classes"])
+                implementation=r["outs"], reference=(r["ref"] or {}).get("matches"), classes=r["classes"],
+                recorded_version_outcome=r.get("pinned_outcome", "same as now / not asked"))
 
 
 def base_cov(run, recs, nus, nontrivial, rule, extra=None):
@@ -249,11 +265,12 @@ def c09(run, replay=None):
 
 
 # ---------------------------------------------------------------- C10
-def spellings_of(tok):
+def spellings_of(tok, opts=None):
+    opts = opts if opts is not None else D.OPTS
     """documented spellings of one option token of the fixed table"""
     name = unhx(tok[1]).decode()
     val = None if tok[2] == "none" else unhx(tok[2]).decode()
-    o = [x for x in D.OPTS if D.cname(x) == name][0]
+    o = [x for x in opts if D.cname(x) == name][0]
     out = []
     if not o[2]:
         if o[0]:
@@ -268,13 +285,15 @@ def spellings_of(tok):
     return out
 
 
-def respellings(toks, limit=24):
+def respellings(toks, limit=24, opts=None):
+    opts = opts if opts is not None else D.OPTS
+    flags = "".join(o[0] for o in opts if o[0] and not o[2])
     per = []
     for t in toks:
         if t[0] == 'w':
             per.append([[unhx(t[1]).decode()]])
         else:
-            per.append(spellings_of(t))
+            per.append(spellings_of(t, opts))
     out = []
     for combo in itertools.product(*per):
         av = [w for part in combo for w in part]
@@ -284,7 +303,7 @@ def respellings(toks, limit=24):
     for av in out:
         for i in range(len(av) - 1):
             a, b = av[i], av[i + 1]
-            if len(a) == 2 and a[0] == '-' and a[1] in 'fq' and len(b) >= 2 and b[0] == '-' and b[1] != '-':
+            if len(a) == 2 and a[0] == '-' and a[1] in flags and len(b) >= 2 and b[0] == '-' and b[1] != '-':
                 stacked.append(av[:i] + [a + b[1:]] + av[i + 2:])
     out += stacked
     uniq = []
@@ -309,21 +328,33 @@ def c10(run, replay=None):
                 missing = []
                 if r["with_opts"]:
                     opts = js.get("options", {})
-                    missing += ["options." + D.key_of(D.cname(x)) for x in D.OPTS if D.key_of(D.cname(x)) not in opts]
+                    missing += ["options." + D.key_of(D.cname(x)) for x in D.opts_of(r["with_opts"]) if D.key_of(D.cname(x)) not in opts]
+                    # an option that was not given holds its declared default (false / 0 / null without one)
+                    given = set() if not r["ref"] else {D.key_of(unhx(t[1]).decode()) for t in r["ref"]["toks"] if t[0] == 'o'}
+                    for x in D.opts_of(r["with_opts"]):
+                        k = D.key_of(D.cname(x))
+                        if r["ref"] and k in opts and k not in given and r["verdict"] == "ok":
+                            want = x[3] if x[2] else None
+                            got = opts[k]
+                            if x[2] and got != want:
+                                run.violation("default-lost: `prog %s` with %r: option %s was not given and has the declared default %r, but the result holds %r" %
+                                              (r["usage"], r["argv"], k, want, got), replay_of(r))
+                            if not x[2] and got not in (False, 0):
+                                run.violation("default-lost: `prog %s` with %r: flag %s was not given but the result holds %r" % (r["usage"], r["argv"], k, got), replay_of(r))
                 missing += [c for c in D.commands_of(r["lines"]) if D.key_of(c) not in js]
                 if missing:
                     run.violation("unstable-shape: `prog %s` with %r lacks %r in %s" % (r["usage"], r["argv"], missing, json.dumps(js)), replay_of(r))
         if r["with_opts"] and r["verdict"] == "ok" and "ok" in o and r["ref"] and any(t[0] == 'o' for t in r["ref"]["toks"]) \
                 and not r["classes"] and not dup_option(r["ref"]["toks"]):
-            avs = respellings(r["ref"]["toks"])
+            avs = respellings(r["ref"]["toks"], opts=D.opts_of(r["with_opts"]))
             if len(avs) > 1:
                 groups.append((r, avs))
     if run.tier == "quick" and len(groups) > 1500:
         groups = run.rng.sample(groups, 1500)
     # the respellings must canonicalise to the same tokens (ties the python speller to Spell/canon in Coq)
-    clines = [sx(["canon", D.table_sx(D.OPTS), ["argv"] + [hx(w) for w in av]]) for r, avs in groups for av in avs]
+    clines = [sx(["canon", D.table_sx(D.opts_of(r["with_opts"])), ["argv"] + [hx(w) for w in av]]) for r, avs in groups for av in avs]
     couts = C.run_oracle(clines)
-    cases = [(D.script_text(r["lines"], True), av) for r, avs in groups for av in avs]
+    cases = [(D.script_text(r["lines"], r["with_opts"]), av) for r, avs in groups for av in avs]
     iouts = D.run_impl(cases)
     k = 0
     nresp = 0
